@@ -63,7 +63,7 @@ fn alphabet(name: &str, seed: u64) -> Vec<f64> {
     base.iter().map(|v| a * v + b).collect()
 }
 
-fn lat_jobs(jobs: &mut Vec<(usize, Job)>, n: usize, p: usize, aname: &str, seed: u64, cap: u64) {
+fn lat_jobs(jobs: &mut Vec<(usize, Job)>, n: usize, p: usize, aname: &str, ests: &[&str], seed: u64, cap: u64) {
     let alpha = alphabet(aname, seed);
     let a = alpha.len() as u64;
     let cells = n * p;
@@ -73,7 +73,7 @@ fn lat_jobs(jobs: &mut Vec<(usize, Job)>, n: usize, p: usize, aname: &str, seed:
         d += 1;
     }
     let prefixes = a.pow(d as u32);
-    for est in ESTS {
+    for est in ests {
         for code in 0..prefixes {
             // digits of `code` in base |alphabet|, first cell most significant
             let mut fixed = vec![0usize; d];
@@ -95,47 +95,48 @@ fn lat_jobs(jobs: &mut Vec<(usize, Job)>, n: usize, p: usize, aname: &str, seed:
 }
 
 /// (n, p, alphabet) lattice configurations per tier.
-fn lattice_space(t: bool) -> Vec<(usize, usize, &'static str)> {
-    let mut v: Vec<(usize, usize, &'static str)> = Vec::new();
+fn lattice_space(t: bool) -> Vec<(usize, usize, &'static str, &'static [&'static str])> {
+    let mut v: Vec<(usize, usize, &'static str, &'static [&'static str])> = Vec::new();
     if !t {
         for n in 2..=6 {
-            v.push((n, 1, "S4"));
+            v.push((n, 1, "S4", &ESTS));
         }
         for n in 2..=4 {
-            v.push((n, 2, "S4"));
+            v.push((n, 2, "S4", &ESTS));
         }
-        v.push((5, 2, "S3"));
-        v.push((2, 3, "S4"));
-        v.push((3, 3, "S4"));
-        v.push((4, 3, "S3"));
-        v.push((2, 4, "S4"));
-        v.push((3, 4, "S3"));
-        v.push((5, 4, "T2"));
+        v.push((5, 2, "S3", &ESTS));
+        v.push((2, 3, "S4", &ESTS));
+        v.push((3, 3, "S4", &ESTS));
+        v.push((4, 3, "S3", &ESTS));
+        v.push((2, 4, "S4", &ESTS));
+        // the correlation-mode half of this lattice is left to the thorough tier
+        v.push((5, 4, "T2", &["cov", "tsvd"]));
     } else {
         for n in 2..=8 {
-            v.push((n, 1, "S4"));
+            v.push((n, 1, "S4", &ESTS));
         }
         for n in 2..=5 {
-            v.push((n, 2, "S4"));
+            v.push((n, 2, "S4", &ESTS));
         }
-        v.push((6, 2, "S3"));
-        v.push((7, 2, "S3"));
-        v.push((2, 3, "S4"));
-        v.push((3, 3, "S4"));
-        v.push((4, 3, "S4"));
-        v.push((5, 3, "S3"));
-        v.push((2, 4, "S4"));
-        v.push((3, 4, "S3"));
-        v.push((4, 4, "B2"));
-        v.push((5, 4, "B2"));
-        v.push((5, 4, "D2"));
-        v.push((5, 4, "T2"));
-        v.push((6, 4, "T2"));
-        v.push((2, 5, "S3"));
-        v.push((3, 5, "B2"));
-        v.push((4, 5, "B2"));
-        v.push((2, 6, "S3"));
-        v.push((3, 6, "B2"));
+        v.push((6, 2, "S3", &ESTS));
+        v.push((7, 2, "S3", &ESTS));
+        v.push((2, 3, "S4", &ESTS));
+        v.push((3, 3, "S4", &ESTS));
+        v.push((4, 3, "S4", &ESTS));
+        v.push((5, 3, "S3", &ESTS));
+        v.push((2, 4, "S4", &ESTS));
+        v.push((3, 4, "S3", &ESTS));
+        v.push((3, 4, "S4", &ESTS));
+        v.push((4, 4, "B2", &ESTS));
+        v.push((5, 4, "B2", &ESTS));
+        v.push((5, 4, "D2", &ESTS));
+        v.push((5, 4, "T2", &ESTS));
+        v.push((6, 4, "T2", &ESTS));
+        v.push((2, 5, "S3", &ESTS));
+        v.push((3, 5, "B2", &ESTS));
+        v.push((4, 5, "B2", &ESTS));
+        v.push((2, 6, "S3", &ESTS));
+        v.push((3, 6, "B2", &ESTS));
     }
     v
 }
@@ -161,16 +162,16 @@ impl Harness for C14 {
         let cap: u64 = if t { 2_500_000 } else { 300_000 };
         let mut jobs: Vec<(usize, Job)> = Vec::new();
         let space = lattice_space(t);
-        for (n, p, a) in &space {
-            lat_jobs(&mut jobs, *n, *p, a, seed, cap);
+        for (n, p, a, ests) in &space {
+            lat_jobs(&mut jobs, *n, *p, a, ests, seed, cap);
         }
         for (n, p) in structured_sizes(t) {
             // interleave the structured jobs early (they are small) but after the tiniest lattices
-            jobs.push((100 + n * p / 8, Job::new(format!("str-n{}p{}", n, p), json!({"kind": "str", "n": n, "p": p, "rot": seed}))));
+            jobs.push((100 + n * p / 8, Job::new(format!("str-n{}p{}", n, p), json!({"kind": "str", "n": n, "p": p, "rot": seed, "rots": if t { 4 } else { 1 }}))));
         }
         jobs.sort_by_key(|(w, _)| *w);
         let jobs: Vec<Job> = jobs.into_iter().map(|(_, j)| j).collect();
-        let lattice_desc: Vec<String> = space.iter().map(|(n, p, a)| format!("{}x{} over {:?}", n, p, alphabet(a, seed))).collect();
+        let lattice_desc: Vec<String> = space.iter().map(|(n, p, a, e)| format!("{}x{} over {:?}{}", n, p, alphabet(a, seed), if e.len() < 3 { format!(" ({} only)", e.join("+")) } else { String::new() })).collect();
         Plan {
             jobs,
             budget_s: if t { 2700 } else { 40 },
@@ -193,7 +194,7 @@ impl Harness for C14 {
             ],
             bounds: json!({
                 "lattices": format!("every n x p matrix over the alphabet, for: {}; x {{PCA covariance, PCA correlation: every k in 1..=p; truncated SVD: every k in 1..p and k = p (must be Err)}}; constant columns are outside the statement in correlation mode (skipped, counted)", lattice_desc.join("; ")),
-                "structured": format!("n in {}, p in 1..=8: every (rank structure in {{1,2,p-1,p latent integer factors, exact duplicate column, constant column}}) x (4 column-scale profiles: unit, 2^-7..2^10, 1e-2..1e3, alternating 1e3/1e-2) x (3 mean profiles: 0, +1e4, mixed up to 1e4) x 3 estimators x every k", if t { "2..=80 (every n)" } else { "{2,3,5,8,9,17,40,80}" }),
+                "structured": format!("n in {}, p in 1..=8: every (rank structure in {{1,2,p-1,p latent integer factors, exact duplicate column, constant column}}) x (4 column-scale profiles: unit, 2^-7..2^10, 1e-2..1e3, alternating 1e3/1e-2) x (3 mean profiles: 0, +1e4, mixed up to 1e4) x {} generator rotation(s) x 3 estimators x every k", if t { "2..=80 (every n)" } else { "{2,3,5,8,9,17,40,80}" }, if t { 4 } else { 1 }),
                 "seed": format!("VERIF_SEED mod 8 selects the affine perturbation a*v+b of the lattice alphabets (here a={}, b={}) and rotates the structured generator's weights", PERTURB[(seed % 8) as usize].0, PERTURB[(seed % 8) as usize].1),
                 "element_type": "f64, DenseMatrix",
             }),
@@ -231,7 +232,8 @@ impl Harness for C14 {
                 check(est, &x, k, "lattice");
             }
             "str" => {
-                let rot = job.u("rot");
+                // generator rotation: VERIF_SEED picks the base, the thorough tier enumerates 4 consecutive rotations
+                let rot = job.u("rot") * 4 + mc::choose(job.u("rots"));
                 let sts = gen::structures(p);
                 let st = sts[mc::choose(sts.len())];
                 let sv = mc::choose(gen::N_SCALES);
